@@ -38,6 +38,10 @@ CHECKS = {
    text="Pae.tla defines Pack and the decoding as a parser machine (one action per framing field). TLC proves RoundTrip (the machine run on Pack(t,p) returns exactly (t,p)), Injective (distinct pairs pack to distinct strings) and Total for every pair / every string inside the bounds; each case is replayed through the real pack / unpack (guarded re-export): packed bytes equal the specification's, unpack returns the pair, enumerated malformed strings give a pair or an error. Seeded random ASCII pairs are validated as traces against Trace_Pae.tla; binary payloads and Unicode types are round-tripped by the harness.",
    note="Trusted: TLC, the guarded re-export (verif::pae_pack / pae_unpack call the private functions unchanged). Bounds: strings <= 3 over {space,'1','a'} plus lengths around the 1/2/3-digit boundaries; decode inputs <= 5 (quick) / 7 (thorough) over 7 framing characters; binary payloads sampled.",
    tech="TLA+ spec Pae.tla (parser machine) model-checked with TLC; replay of every TLC case; trace validation (Trace_Pae.tla)"),
+ "C11": dict(cat="model_checking", ref="§4 C11, §3.4",
+   text="CJson.tla defines, over 11 character classes, the reference signed-bytes string encoding Olpc, the general-purpose JSON escaping and the textual replacement the code used to apply; TLC proves Olpc injective, characterises exactly the strings on which the old path differs (non-vacuity witness set), and emits one scenario per (class string, string-bearing field) with the reference atoms. The harness instantiates every class (several members; every Unicode scalar value in the thorough tier), checks its independent OLPC renderer against the TLC atoms, and requires through the public API only that an ed25519 signature made directly over the reference bytes verifies and that the library's own signature is byte-identical; key ids of all fixture keys are compared with sha256 of the reference rendering of the key description.",
+   note="Trusted: TLC, ring ed25519 (deterministic), serde_json's Value form of the metadata as the member set. Class-based: each class is instantiated by seeded members (quick) or all members (thorough); strings <= 2 in every field and <= 3 in captured output (quick), <= 3 / <= 4 (thorough).",
+   tech="TLA+ spec CJson.tla (encoders over character classes) checked with TLC; every TLC scenario concretised and decided through Metablock::verify / Metablock::new with an independent reference renderer bound to the spec atoms"),
  "C03": dict(cat="model_checking", ref="§4 C03, §3.3",
    text="Rules.tla transcribes the in-toto specification's artifact-rule algorithm (functional form and a state machine with one Apply step per rule; TLC checks that both agree, that the queue only shrinks and that a rule only consumes artifacts its pattern / source prefix matches). TLC enumerates rule lists x item link states x referenced-step states; every scenario is run through the real rule engine and the verdict must equal the specification's; seeded random scenarios beyond the bounds (up to 4+4 rules, 6 paths, nested prefixes) are validated step by step (consumed set and remaining queue after every rule, hook in rulelib.rs) against Trace_Rules.tla.",
    note="Trusted: TLC, glob::Pattern (default options) as fnmatch, the harness builders. Inputs restricted to C03's own quantifier: normalised relative paths, portable glob syntax; '[' only in DISALLOW. Bounds: 3 paths, 57-rule alphabet, rule lists <= 2 in TLC (<= 4+4 in traces).",
